@@ -211,6 +211,9 @@ public:
     double x2 = hyper_ ?
         (tanh(x / scale_) + 1.) * (upperBound_ - lowerBound_) / 2. + lowerBound_ :
         (atan(x / scale_) + NumConstants::PI() / 2.) * (upperBound_ - lowerBound_) / NumConstants::PI() + lowerBound_;
+    // Rounding of (upperBound_ - lowerBound_) can push a saturated value one ulp outside of the interval.
+    if (x2 > upperBound_) x2 = upperBound_;
+    if (x2 < lowerBound_) x2 = lowerBound_;
     return x2;
   }
 
